@@ -1271,6 +1271,14 @@ theorem expr_dtype_matches :
             exact var_mem_operands t hc
         · simp [hv]
 
+/-- Obligation (tie G, round 10): **the dispatcher has no state besides its three settings** - the only instance
+    attributes `_NumpyLikeOperatorDispatcher` ever assigns are `op`, `type_promotion`, `constant_promotion` (set in
+    `__init__`); a new attribute (a cache of promoted constants, a memo table) fails this whatever inputs are generated.
+    Class-level statements and method decorators are part of `var_dunders_wired`. This is what lets `dispatch` be a
+    function of the operands and the settings alone. -/
+theorem dispatcher_state_inventory :
+    Generated.VarDunders.numpyDispatcherAttrs = ["constant_promotion", "op", "type_promotion"] := by decide
+
 /-! ## What does not hold (listed findings), with the part that does -/
 
 /-- Known finding `neg:unsigned:refused`: numpy negates unsigned arrays (wrap-around), ONNX defines no
